@@ -269,7 +269,7 @@ CONTRACTS = [
                        C("nothing_starts_after_a_failure_with_stop_early", "implies(g_stop_mode, not g_failure_seen)", "C03")],
              modifies=["Operation.g_started@self"],
              ensures=["self.g_started", "result.returncode is None", "result.slot is None"],
-             raises={"ConductorAbort": ["self.g_started"], "ConductorError+": ["self.g_started"]},
+             raises={"ConductorAbort": [], "ConductorError+": []},
              trusted_reason="abstract method: the contract every override must refine"),
     Contract(OP + "::Operation.finish_execution", params={"handle": "OperationExecutionHandle", "ctx": "Context"},
              extern=True, props=["C01", "C03", "C06"],
